@@ -222,6 +222,28 @@ func execC17(r *run, c caseT, tplCache map[string]*pongo2.Template) {
 			r.reject(id, "template route and ApplyFilter disagree", map[string]any{"filter": c.op, "input_hex": c.args[0]})
 		}
 	}
+	// route 4: the filter tag applies the same function to its rendered body, autoescaping on or off
+	if (id%11 == 0 || len(in) > 4) && c.op != "safe" {
+		key := "tag:" + c.op
+		src := "{% filter " + c.op + " %}{{ v|safe }}{% endfilter %}|{% autoescape off %}{% filter " + c.op + " %}{{ v }}{% endfilter %}{% endautoescape %}"
+		if len(c.args) > 1 {
+			key += ":p"
+			src = strings.ReplaceAll(src, "{% filter "+c.op+" %}", "{% filter "+c.op+":\""+strings.NewReplacer("\\", "\\\\", "\"", "\\\"").Replace(pstr)+"\" %}")
+			key += pstr
+		}
+		tpl := tplCache[key]
+		if tpl == nil {
+			var e error
+			tpl, e = pongo2.FromString(src)
+			must(e)
+			tplCache[key] = tpl
+		}
+		tout, terr := tpl.Execute(pongo2.Context{"v": in})
+		r.stats["filter_tag_route"]++
+		if (terr != nil) != (err != nil) || (err == nil && tout != out.String()+"|"+out.String()) {
+			r.reject(id, "the filter tag and ApplyFilter disagree", map[string]any{"filter": c.op, "input_hex": c.args[0], "tag_output": tout})
+		}
+	}
 	// route 3: what the escaping filters produce does not depend on whether the value was marked safe
 	if id%5 == 0 || len(in) > 4 {
 		out2, err2 := pongo2.ApplyFilter(c.op, pongo2.AsSafeValue(in), param)
